@@ -183,8 +183,6 @@ CLAIMED = {
 }
 
 NOT_APPLICABLE = {
- "C17": "stream integrity across write/enable/flush/fault histories is a property of runtime values and orders; no structural clause that is both necessary and non-brittle beyond what C08/C10/C16/C18/C22 check",
- "C39": "equality with a reference parser of resolv.conf/hosts syntax over all file contents; no bounded-buffer idiom to anchor a guard rule",
 }
 
 # ---- session 3 additions (same conventions)
@@ -537,4 +535,32 @@ CLAIMED.update({
                  "input; evaluating it would decide a sample of inputs), the UNIX_SOCKET and NONCONFORMANT forms.",
          "note": STD_NOTE + ORDER_NOTE,
          "technique": "static analysis: exhaustive evaluation of the extracted validators over byte values (K6), decision table of evhttp_uri_join against the RFC 3986 split (K6), sibling agreement (K7)"},
+})
+
+
+CLAIMED.update({
+ "C39": {"level": "other",
+         "text": "Clauses of the configuration property that are decisions of the code: T - the option names documented for evdns_base_set_option are exactly the names the code recognises; "
+                 "O - evdns_base_set_option_impl evaluated on an abstract evdns_base for each of the 17 options (with and without the trailing colon) x well-formed / zero / junk / trailing-junk "
+                 "values x every class subset of the flags: a well-formed value changes exactly the option's own field (clipped to the bounds in the code) and only when its class is enabled, a "
+                 "malformed value is refused with -1 and changes nothing (strtol/strtod modelled with their C semantics); L - resolv_conf_parse_line evaluated on 17 line forms of resolv.conf(5) "
+                 "x 5 flag sets performs exactly the documented actions (nameserver added, search domains in order, option/value pairs handed to the option table) and nothing for comments, "
+                 "unknown directives and missing arguments. Declined: memory safety of the file reader on arbitrary bytes, the hosts file, equality with a reference parser on all inputs.",
+         "note": STD_NOTE + ORDER_NOTE,
+         "technique": "static analysis: documentation/code table agreement (K7), decision tables by evaluation of the extracted option and line parsers on abstract strings and an abstract heap (K6)"},
+})
+
+
+CLAIMED.update({
+ "C17": {"level": "other",
+         "text": "Necessary structural clauses of stream integrity for the socket and pair transports, decided by evaluating the extracted transport functions on the finite domain of what the "
+                 "system call / the buffers answer: R/W - bufferevent_readcb and bufferevent_writecb for every event mask x transfer result (progress, 0, retriable error, reset, refused) x output "
+                 "left: data is charged and the data callback triggered and no event callback runs; end of stream and hard errors disable the direction FIRST and then run exactly one event callback "
+                 "with READING|EOF resp. ERROR (WRITING for the writer); a retriable error reports nothing; buffers are unfrozen exactly around the transfer. P - be_pair_transfer for reader "
+                 "watermark x fill levels x flushing moves bytes only by whole-buffer moves from the writer's output to the reader's input, a flush hands over EVERYTHING the writer wrote (a genuine "
+                 "defect fixed in /repo), something moves whenever the reader has room, both buffers are frozen again on every path; be_pair_flush for mode x direction transfers BEFORE it announces EOF to the partner, once, with the right direction bits. M - inside the socket and pair back ends only "
+                 "the transport functions change a bufferevent's input/output buffers. Declined: equality of the delivered byte stream over histories of writes, toggles, flushes, schedules and "
+                 "faults (runtime values and orders), the filter and TLS state machines.",
+         "note": STD_NOTE + ORDER_NOTE,
+         "technique": "static analysis: decision tables by evaluation of the extracted transport callbacks over the finite domain of transfer results (K6), who-may-call over buffer-mutating calls (K2)"},
 })
